@@ -324,6 +324,37 @@ def order_phase(rep):
     return events
 
 
+def enum_case_events(rep):
+    """directive values that are case-insensitive tokens (Referrer-Policy, SameSite, X-Frame-Options, ...): every member of every
+    case-insensitive string enumeration in four case patterns, the last one mixed inside the token - lower-case up to where a
+    shorter member of the same enumeration ends, upper-case behind - has to parse to that member and nothing else"""
+    import enum
+    from .. import corpus
+    from cryptoparser.common.base import StringEnumCaseInsensitiveParsable
+    corpus.import_all()
+    events = []
+    for cls in corpus.all_subclasses(StringEnumCaseInsensitiveParsable):
+        if not (isinstance(cls, type) and issubclass(cls, enum.Enum)) or not cls.__module__.startswith('cryptoparser.'):
+            continue
+        codes = [m.value.code for m in cls]
+        for m in cls:
+            code = m.value.code
+            spellings = {code.lower(), code.upper(), code.title()}
+            for other in codes:
+                if other != code and code.lower().startswith(other.lower()):
+                    spellings.add(code[:len(other)].lower() + code[len(other):].upper())
+                    spellings.add(code[:len(other)].upper() + code[len(other):].lower())
+            spellings.add(code[:len(code) // 2].lower() + code[len(code) // 2:].upper())
+            for text in sorted(spellings):
+                o, got, _ = call(cls.parse_exact_size, text.encode('ascii', 'replace'))
+                events.append({'ev': 'order', 'type': cls.__module__.replace('cryptoparser.', '') + '.' + cls.__name__, 'before': text,
+                               'same': o == 'ok' and got is m, 'alone': code, 'after': o if o != 'ok' else getattr(getattr(got, 'value', None), 'code', '?'),
+                               'enumcase': True})
+                rep.case(digest(['enumcase', cls.__name__, text]))
+    rep.extra['case_patterns_of_case_insensitive_tokens'] = len(events)
+    return events
+
+
 def fragment_block():
     """a header block of fields the library does NOT know whose names are fragments of names it knows (Cookie, Transport-Security,
     Policy, Options, ...), each with a value its longer namesake accepts: they stay unknown fields under their own name"""
@@ -358,6 +389,7 @@ def names_of(data):
 def run(rep):
     from .. import corpus
     order_events = order_phase(rep)          # first: the forked workers inherit a process that has parsed nothing
+    order_events += enum_case_events(rep)
     replay_engine(rep)
     replay_prims(rep)
     replay_header_blocks(rep)
@@ -470,6 +502,11 @@ def run(rep):
     single = {(e['id'], e['path'][0]) for tup, e in verdicts if len(e['path']) == 1}
     for tup, e in verdicts:
         clause = tup[1]
+        if e.get('enumcase'):
+            rep.violation('%s|case-pattern-of-a-case-insensitive-token-not-recognised|%s' % (e['type'], e['alone']),
+                          '%s: %r (a spelling of %r) parses to %s' % (e['type'], e['before'], e['alone'], e['after']),
+                          {k: e[k] for k in ('type', 'before', 'alone', 'after')})
+            continue
         if e.get('ev') == 'order':
             rep.violation('%s|result-depends-on-what-was-parsed-before|%s' % (e['type'], e['path'][0]),
                           '%s: canonical values parse or compose differently in a process that parsed %s values before' % (e['type'], e['before']),
